@@ -4,7 +4,7 @@ from __future__ import annotations
 import ast
 from typing import Dict, Iterator, List, Optional, Set, Tuple
 
-from .expr import SELF, root_of, show, walk
+from .expr import SELF, root_of, show, strip_epochs, walk
 from .intervals import TYPE_RANGE, Iv
 from .model import AnalysisError, ClassInfo, FuncInfo, Program
 from .walk import Event, State, Walker
@@ -36,6 +36,7 @@ def clear_caches():
     ANALYSED.clear()
     _PATH_CACHE.clear()
     _TYPED_CACHE.clear()
+    _DERIVED_CACHE.clear()
     from . import walk as _w
     _w._FIELD_CLASS_CACHE.clear()
     _w._RET_CLASS_CACHE.clear()
@@ -250,3 +251,94 @@ def unclamped(v, bounds=None):
                 v = x
                 continue
         return v
+
+
+_DERIVED_CACHE: Dict[tuple, tuple] = {}
+
+
+def _read_back(v, back):
+    """v with (largest first) every sub-expression that equals a value just stored into a field replaced by a read of that field;
+    inside a flattened product / sum a stored product / sum may be a sub-multiset of the operands"""
+    if not isinstance(v, tuple) or not v:
+        return v
+    if v in back:
+        return back[v]
+    if v[0] == "nary":
+        items = list(v[2])
+        for val, fld in sorted(back.items(), key=lambda kv: -len(repr(kv[0]))):
+            if val[0] == "nary" and val[1] == v[1] and len(val[2]) < len(items):
+                rest = list(items)
+                try:
+                    for x in val[2]:
+                        rest.remove(x)
+                except ValueError:
+                    continue
+                items = rest + [fld]
+        out = [_read_back(x, back) for x in items]
+        acc = out[0]
+        for x in out[1:]:
+            acc = ("bin", v[1], acc, x)  # re-normalised (flattened and sorted) by the caller
+        return acc
+    if isinstance(v[0], str):
+        return (v[0],) + tuple(_read_back(x, back) if isinstance(x, tuple) else x for x in v[1:])
+    return tuple(_read_back(x, back) for x in v)
+
+
+def maintained_derived(prog: Program, cname: str):
+    """fields of `cname` that remember a formula over other fields of the same object - ({field: formula}, {field: reason it is stale}).
+    A field D qualifies when EVERY assignment to it in the class hierarchy stores one and the same expression F over other fields
+    (values the path has just stored into those fields are read back as the fields).  D is *maintained* when, on every path of every
+    method, an assignment to a field F mentions is followed by an assignment to D; otherwise the second map says where it goes stale."""
+    from .expr import canon, mapx, norm
+    key = (id(prog), cname)
+    if key in _DERIVED_CACHE:
+        return _DERIVED_CACHE[key]
+    forms: Dict[str, set] = {}
+    order = []  # (func, [(event index, field name)]) per path, own assignments only
+    for f in mro_methods(prog, cname):
+        if f.prop == "get":
+            continue
+        for p in paths(prog, cname, f):
+            cur: Dict[str, tuple] = {}
+            seq = []
+            for i, e in enumerate(p.events):
+                if e.kind != "setfield" or e.base != SELF:
+                    continue
+                v = strip_epochs(e.value)
+                back = {val: ("f", SELF, n, 0) for n, val in cur.items() if val[0] not in ("c",) and n != e.name}
+                v2 = canon(norm(_read_back(v, back)))
+                forms.setdefault(e.name, set()).add(v2)
+                cur[e.name] = v
+                seq.append((i, e.name, e))
+            if p.exit and p.exit[0] == "return":
+                order.append((f, seq))
+    derived = {}
+    for d, fs in forms.items():
+        if len(fs) != 1:
+            continue
+        F = next(iter(fs))
+        ins = {n[2] for n in walk(F) if n[0] == "f" and n[1] == SELF and n[2] != d}
+        pure = all(n[0] in ("f", "c", "nary", "bin", "un", "self") or not isinstance(n[0], str) for n in walk(F))
+        if ins and pure and F[0] in ("nary", "bin"):
+            derived[d] = F
+    stale = {}
+    for d, F in derived.items():
+        ins = {n[2] for n in walk(F) if n[0] == "f" and n[1] == SELF and n[2] != d}
+        for f, seq in order:
+            last_in = max([i for i, n, _ in seq if n in ins], default=None)
+            if last_in is None:
+                continue
+            last_d = max([i for i, n, _ in seq if n == d], default=-1)
+            if last_d < last_in:
+                ev = [e for i, n, e in seq if i == last_in][0]
+                stale.setdefault(d, (f, ev, sorted(ins)))
+    _DERIVED_CACHE[key] = (derived, stale)
+    return derived, stale
+
+
+def expand_derived(prog: Program, cname: str, v):
+    """v with every read of a maintained derived field replaced by the formula it remembers"""
+    from .expr import mapx
+    derived, stale = maintained_derived(prog, cname)
+    ok = {d: F for d, F in derived.items() if d not in stale}
+    return mapx(strip_epochs(v), lambda n: ok.get(n[2]) if (n[0] == "f" and n[1] == SELF and n[2] in ok) else None)
